@@ -18,7 +18,6 @@ is run and compared with an independent brute-force model written here:
   * CumDOS is non-decreasing, 0 below all bands, num_wann above; DOS is the fder=1 companion.
 The formula objects themselves (F.trace) are taken from the library: the property is about accumulation semantics.
 """
-import itertools
 
 import numpy as np
 
@@ -267,6 +266,23 @@ def fermi_grids(model, counts, spacings):
 # ---------------------------------------------------------------------------------------------- run
 
 def run_case(case, seed):
+    """failures keep the non-trivial mechanisms seen before the failure; an exception raised by the library inside a
+    calculator call is a finding of its own (key StaticCalculator:exception:<Type>)"""
+    seen = set()
+    tag = [case["system"], list(case["grid"]), case["formula"], case["thresh"], case["kramers"]]
+    try:
+        res = _run_case(case, seed, seen)
+    except Exception as e:
+        import traceback
+        tb = traceback.format_exc()
+        res = {"ok": False, "key": "StaticCalculator:exception:" + type(e).__name__,
+               "detail": f"{case}: {type(e).__name__}: {e}", "traceback": tb[-1500:]}
+    if not res.get("ok"):
+        res["nontrivial"] = [tag + [m] for m in sorted(seen | {"reached_calculator"})]
+    return res
+
+
+def _run_case(case, seed, mech_seen):
     from wannierberri.calculators.static import StaticCalculator, CumDOS, DOS
     system = make_system(case["system"], seed)
     data_K = make_data_K(system, case["grid"])
@@ -276,7 +292,6 @@ def run_case(case, seed):
     NB = model.NB
     subsets = [np.array([0]), np.array(sorted({1 % NB, NB - 1}))]
     tag = (case["system"], tuple(case["grid"]), case["formula"], thr, kram)
-    mech_seen = set()
     ncalls = 0
     nties = 0
     ctx = f"system={case['system']} NKFFT={case['grid']} formula={case['formula']} degen_thresh={thr} degen_Kramers={kram}"
